@@ -13,6 +13,7 @@ import (
 
 	"verif/harness/gen"
 	"verif/harness/model"
+	"verif/harness/perturb"
 	"verif/harness/quiesce"
 )
 
@@ -24,6 +25,8 @@ type Case struct {
 	Vars     map[string]any            `json:"vars"`
 	Answers  map[string][]model.Answer `json:"answers"` // per task node id, k-th request -> answer (last repeats)
 	Schedule []int                     `json:"schedule"`
+	// Perturb is the schedule-perturbation seed (0 = off), see package perturb.
+	Perturb uint64 `json:"perturb,omitempty"`
 	// Graph, if set, is used instead of lowering Prog (hand-built shapes).
 	Graph *gen.Graph `json:"graph,omitempty"`
 	// Rank, if set, orders the pending set (by rank, then request sequence)
@@ -163,6 +166,10 @@ func RunLockstep(c *Case, pick func(n int) int, hk *Hooks) *Outcome {
 		}
 	}
 
+	if c.Perturb != 0 {
+		perturb.Install(c.Perturb, 30, nil)
+		defer perturb.Remove()
+	}
 	var in *Inst
 	var err error
 	if hk.NewInst != nil {
